@@ -14,6 +14,7 @@ import r_pair
 import r_encbound
 import r_meta
 import r_scheme
+import r_wire
 import witness
 
 
@@ -403,7 +404,23 @@ def c18(facts, tier):
     return rep
 
 
+def c14(facts, tier):
+    rep = Report("C14", tier, facts,
+                 "R-WIRE over every serialization triple (trait impls and inherent *_full / *_terms / *_polynomial "
+                 "functions), per scheme projection: the writer's and the reader's wire grammars (typed leaves, loop "
+                 "nesting, conditionals) are equal; the size function's fixed byte count equals the writer's per "
+                 "conditional branch and has a variable term wherever the writer loops; readers of possibly "
+                 "seed-compressed objects expand the seed.",
+                 "equality of restored objects as values; numerical loop bounds and the closed-form variable part of "
+                 "the size functions; cross-context reconstruction.")
+    n, g = r_wire.run(facts, rep)
+    rep.floor("R-WIRE(rw)", "serialization triples", g, 30)
+    rep.floor("R-WIRE(rw)", "(triple, scheme) grammar comparisons", n, 40)
+    return rep
+
+
 CHECKS = {
+    "C14": c14,
     "C18": c18,
     "C20": c20,
     "C04": c04,
